@@ -69,3 +69,21 @@ def harness(ctx, vh, args, timeout=3600, env=None, ok_rcs=(0,)):
     res = json.load(open(out))
     res["_stderr"] = p.stderr
     return res
+
+
+def diverse(behaviours, limit, steps_of=lambda b: b, seed=1):
+    """TLC's simulator evaluates the Dump invariant on every successor it generates for the last
+    step, so the output holds each simulated trace many times with different last steps.  Keep one
+    behaviour per distinct prefix (all steps but the last), chosen by seed."""
+    groups = {}
+    for b in behaviours:
+        st = steps_of(b)
+        key = json.dumps(st[:-1], sort_keys=True)
+        groups.setdefault(key, []).append(b)
+    out = []
+    for k in groups:
+        g = groups[k]
+        out.append(g[(seed * 7919 + len(out)) % len(g)])
+        if limit and len(out) >= limit:
+            break
+    return out
